@@ -21,6 +21,8 @@ class Ctx:
     def __init__(self, log=None):
         self.prog = Program(log=log)
         self.eff = Effects(self.prog)
+        from .rules import common as _common
+        _common.CURRENT_CTX[0] = self
         try:
             from .tables import Evaluator
             from . import intervals
@@ -57,8 +59,83 @@ class Ctx:
         for ast, val, en in g.dom_edges(cn, asserts=True):
             if en.from_assert and not asserts:
                 continue
-            out.append((canon(ast), val, ast, en.from_assert))
+            gc = canon(ast)
+            if ast.get("_u") is not None:
+                from .rules.common import subst_counts
+                gc = subst_counts(gc, ast["_u"])
+            out.append((gc, val, ast, en.from_assert))
+        # validation helpers: a dominating call statement `check(a, b)` of a library function every normal return of which is
+        # dominated by conditions over its parameters (`if (bad) throw`) establishes those conditions for the arguments
+        for d in g.dominators(cn):
+            if d.kind != "stmt" or d is cn or d.ast is None:
+                continue
+            for gc, val, call in self._helper_facts(d.ast):
+                out.append((gc, val, call, False))
         return out
+
+    def _helper_facts(self, stmt):
+        from .expr import strip as _strip, callee_info as _ci
+        e = stmt
+        while isinstance(e, dict) and e.get("kind") in ("ExprWithCleanups", "ImplicitCastExpr", "ParenExpr", "CXXBindTemporaryExpr"):
+            ch = [c for c in e.get("inner", []) if isinstance(c, dict) and c.get("kind")]
+            if not ch:
+                return []
+            e = ch[0]
+        if not isinstance(e, dict) or e.get("kind") not in ("CallExpr", "CXXMemberCallExpr"):
+            return []
+        ci, fs = self.eff.resolve_callee(e)
+        if not ci or len(fs) != 1:
+            return []
+        h = fs[0]
+        summ = self._helper_summary(h)
+        if not summ:
+            return []
+        if ci.get("obj") is not None and _strip(ci["obj"], casts=True).get("kind") != "CXXThisExpr" and summ[1]:
+            return []           # facts about the members of another object are not translated
+        args = ci["args"]
+        if len(args) < len(h.params):
+            return []
+        amap = {p.get("id"): canon(args[i]) for i, p in enumerate(h.params)}
+
+        def sub(c):
+            if isinstance(c, tuple):
+                if c and c[0] == "var" and c[1] in amap:
+                    return amap[c[1]]
+                return tuple(sub(y) if isinstance(y, tuple) else y for y in c)
+            return c
+        return [(sub(c), val, e) for c, val in summ[0]]
+
+    def _helper_summary(self, h):
+        """([(condition over the parameters / own members, value)], mentions_members) holding on every normal return of h."""
+        memo = getattr(self, "_hs_memo", None)
+        if memo is None:
+            memo = self._hs_memo = {}
+        if h.key in memo:
+            return memo[h.key]
+        memo[h.key] = None
+        if h.body is None or h.lam_parent is not None:
+            return None
+        rt = h.type.split("(")[0].strip() if h.type else ""
+        if rt != "void":
+            return None
+        hg = cfg_of(h)
+        pids = {p.get("id") for p in h.params}
+        facts, members = [], False
+        from .expr import subterms as _sub
+        for ast, val, en in hg.dom_edges(hg.exit, asserts=False):
+            c = canon(ast)
+            ok = True
+            for t in _sub(c):
+                if isinstance(t, tuple) and t:
+                    if t[0] == "var" and t[1] not in pids:
+                        ok = False
+                    if t[0] == "field":
+                        members = True
+            if ok:
+                facts.append((c, val))
+        res = (facts, members) if facts else None
+        memo[h.key] = res
+        return res
 
     def _cond_atoms(self, e, val, out):
         """Decompose a condition known to have value `val` into atomic facts."""
@@ -245,3 +322,11 @@ def broken(pid, tier, msg, seed=0):
     with open(os.path.join(OUT, "%s.json" % pid), "w") as fo:
         json.dump(ev, fo, indent=1)
     return 2
+
+
+class SubCtx(Ctx):
+    """A context over another program (the positive-control files): same guard machinery, no front-end work."""
+
+    def __init__(self, prog, eff):
+        self.prog = prog
+        self.eff = eff
